@@ -523,6 +523,12 @@ func (p *PathState) Assert(in *Interp, id string, v Value) {
 		q0 := in.S.Stats.Time
 		r := in.S.Check(p.TimeoutOb, neg)
 		if r == smt.Unknown {
+			// bug-finding fallback: make the query linear by fixing one side of every symbolic product
+			if conj, ok := p.concretiseSearch(in, id, neg); ok {
+				r, neg = smt.Sat, conj
+			}
+		}
+		if r == smt.Unknown {
 			// second opinion: the other installed solvers on the self-contained script of this obligation
 			script := in.S.Script(neg)
 			for _, ext := range [][]string{{"cvc5", "--tlimit=120000", "--lang=smt2"}, {"/usr/bin/z3", "-in", "-T:120"}} {
